@@ -15,6 +15,7 @@ import ast
 from .. import analysis
 from ..astutil import calls_in, call_name, where
 from ..cfg import build_cfg, enclosing_handlers
+from ..logic import known
 from ..model import AnalysisError, FuncInfo, unparse, walk_no_nested
 from ..raises import Raises
 from .rules_card import cardinality_roundtrip
@@ -109,15 +110,24 @@ def run(prog, rep):
         f = prog.func(qn)
         rep.saw_function(f)
         g = build_cfg(f)
+        me = f.params[0]
+
+        def classify(leaf, me=me):
+            return "LENIENT" if unparse(leaf) == "%s.ignore_errors" % me else None
         raises = [n for n in g.nodes if n.kind == "raise"]
-        ok = len(raises) == 1 and isinstance(raises[0].ast.exc, ast.Call) and call_name(raises[0].ast.exc) == "ParserException"
-        conds = [(unparse(t), pol) for t, pol, _ in g.dominating_conditions(raises[0])] if raises else []
-        ok = ok and ("self.ignore_errors", "false") in conds
-        rep.check(ok, "ERR-1", "%s raises ParserException only when not lenient" % f.short, str(conds),
+        ok = bool(raises) and all(isinstance(r.ast.exc, ast.Call) and call_name(r.ast.exc) == "ParserException" for r in raises) \
+            and all(known(g, r, classify, lambda a: not a["LENIENT"], ["LENIENT"]) for r in raises)
+        rep.check(ok, "ERR-1", "%s raises ParserException only when not lenient" % f.short, "%d raise(s), each reachable only with ignore_errors false" % len(raises),
                   "%s does not have the shape `if self.ignore_errors: warn; else raise ParserException`" % f.short, f.where,
                   witness="lenient reading raises / strict reading swallows an error")
-        rets = [n for n in g.nodes if n.kind == "return" and ("self.ignore_errors", "true") in [(unparse(t), pol) for t, pol, _ in g.dominating_conditions(n)]]
-        rep.check(bool(rets), "ERR-1", "%s returns after warning in lenient mode" % f.short, "ok", "the lenient branch of %s does not return" % f.short, f.where)
+        exits = [n for n in g.nodes if n.kind == "return" or (n.kind == "exit")]
+        rets = [n for n in g.nodes if n.kind == "return"]
+        normal = rets + [p for n in g.nodes if n.kind == "exit" for k, p in n.pred if p.kind not in ("return", "raise") and k not in ("exc",)]
+        good = bool(normal) and all(known(g, n, classify, lambda a: a["LENIENT"], ["LENIENT"]) for n in normal)
+        rep.check(good, "ERR-1", "%s returns normally only in lenient mode" % f.short, "ok",
+                  "%s can return normally although ignore_errors is false: the error is swallowed" % f.short, f.where)
+        warned = any(call_name(c) == "%s.warn" % me for c in calls_in(f.node))
+        rep.check(warned, "ERR-1", "%s reports through warn in lenient mode" % f.short, "ok", "the lenient branch of %s does not call warn" % f.short, f.where)
     for qn in ("tools.xmlparser.XMLReader.warn", "tools.dict_parser.DictReader.warn"):
         f = prog.func(qn)
         rep.check(not R.summary(f), "ERR-1", "%s cannot raise" % f.short, "ok", "%s can raise %s" % (f.short, R.summary(f)[:2]), f.where)
